@@ -91,32 +91,22 @@ contract(
     locals={"intervals": List(Interval)},
 )
 
-_on_exact = ("ite(not self._custom_hours_set, dflt, "
-             "ite(self.project.attributes['start'] is None, False, "
-             "LW(self, slot_idx, timezone) in self._hours and len(self._hours[LW(self, slot_idx, timezone)]) > 0 and "
-             "Working(self._hours, LW(self, slot_idx, timezone), LM(self, slot_idx, timezone))))")
-# local time of slot start: project time + zone offset (zoneinfo trusted: A-tz)
-ghost("LT", ["wh", "i", "tz"], "dt(secs(PT(wh.project, i)) + ite(tz is None or some(tz) == '', 0, uf_tzoff(some(tz), secs(PT(wh.project, i)))))")
-ghost("LW", ["wh", "i", "tz"], "LT(wh, i, tz).weekday()")
-ghost("LM", ["wh", "i", "tz"], "LT(wh, i, tz).hour * 60 + LT(wh, i, tz).minute")
-
 for _v, _cy in (("py", False), ("cy", True)):
     contract(
         WH + "::WorkingHours.onShift", variant=_v, props=["C02", "C13", "C14"],
         params={"self": Ref("WorkingHours"), "slot_idx": Int, "timezone": Opt(Str)}, ret=Bool,
         defaults={"timezone": None},
         consts={"_USE_CYTHON": _cy},
-        ghost_params={"dflt": Bool},
-        requires=[("g", "PG(self.project) >= 1"),
-                  ("dflt", "dflt == uf_isWorkingTime(self.project, slot_idx)")] + (
+        reveal=["WHOn"],
+        requires=[("g", "PG(self.project) >= 1")] + (
             [("table", "HoursWf(self._hours)")] if _cy else []),
         opaque_calendar=True,
-        ensures=[("exact", "result == " + _on_exact),
+        ensures=[("exact", "result == WHOn(self, slot_idx, timezone)"),
                  # C02: a slot reported as on shift starts inside the declared hours (local time)
                  ("sound", "implies(result and self._custom_hours_set, "
                            "Working(self._hours, LW(self, slot_idx, timezone), LM(self, slot_idx, timezone)))")],
         calls={
-            "self.project.isWorkingTime": ("spec", ["self", "i"], "uf_isWorkingTime(self, i)"),
+            "self.project.isWorkingTime": ("spec", ["self", "i"], "IsWT(self, i)"),
             "self.project.idxToDate": ("spec", ["self", "i"], "ite(self.attributes['start'] is None, None, PT(self, i))"),
             "self._convert_to_timezone": ("spec", ["self", "d", "tz"], "dt(secs(d) + ite(tz == '', 0, uf_tzoff(tz, secs(d))))"),
             "check_working_hours_fast": ("contract", WCY + "::check_working_hours_fast"),
